@@ -133,9 +133,11 @@ const (
 	opLimit
 	opIter
 	opCap
+	opCommitPin // Trie.Commit + NodeDatabase.Reference(root, {}) - what the account layer does per block
+	opUnpin     // NodeDatabase.Dereference of the oldest root that is still pinned
 )
 
-var kindName = []string{"update", "delete", "get", "hash", "commitmem", "commitdisk", "reopen", "limit", "iter", "cap"}
+var kindName = []string{"update", "delete", "get", "hash", "commitmem", "commitdisk", "reopen", "limit", "iter", "cap", "commitpin", "unpin"}
 
 type op struct {
 	Kind opKind
@@ -148,6 +150,10 @@ type alphabet struct {
 }
 
 func newAlphabet(keys [][]byte, vals []int) *alphabet {
+	return newAlphabetKinds(keys, vals, opHash, opCommitMem, opCommitDisk, opReopen, opLimit, opIter, opCap)
+}
+
+func newAlphabetKinds(keys [][]byte, vals []int, kinds ...opKind) *alphabet {
 	a := &alphabet{keys: keys}
 	for k := range keys {
 		for _, v := range vals {
@@ -156,7 +162,7 @@ func newAlphabet(keys [][]byte, vals []int) *alphabet {
 		a.ops = append(a.ops, op{opDelete, k, 0})
 		a.ops = append(a.ops, op{opGet, k, 0})
 	}
-	for _, kd := range []opKind{opHash, opCommitMem, opCommitDisk, opReopen, opLimit, opIter, opCap} {
+	for _, kd := range kinds {
 		a.ops = append(a.ops, op{Kind: kd})
 	}
 	return a
@@ -298,6 +304,15 @@ type inst struct {
 	viols    []viol
 	dead     bool // the instance could not be (re)opened; no further operation possible
 	msgs     bool // format violation messages (confirmation / replay runs)
+
+	// model of the NodeDatabase pins (Reference(root, {}) / Dereference(root)): the roots
+	// pinned and not yet released in pin order, a counter per root, the content behind
+	// each root, and the root of the last commit of the live trie.
+	pinList   []common.Hash
+	pins      map[common.Hash]int
+	rootCt    map[common.Hash]content
+	lastRoot  common.Hash
+	unclaimed bool // the last pin of the live trie's committed root was released: nothing is claimed for the live trie any more
 }
 
 func newInst(a *alphabet, rc *refCache) *inst {
@@ -335,7 +350,7 @@ func (in *inst) setModel(k int, v uint8) {
 // step applies one operation to the real trie and to the model.  Every direct
 // result of the operation (error, returned value, returned root) is compared.
 func (in *inst) step(o op) {
-	if in.dead {
+	if in.dead || in.unclaimed {
 		return
 	}
 	name := kindName[o.Kind]
@@ -393,6 +408,36 @@ func (in *inst) step(o op) {
 			in.tr.SetCacheLimit(1)
 		case opIter:
 			in.checkIter("op")
+		case opCommitPin:
+			root, err := in.tr.Commit(nil)
+			if err != nil {
+				in.fail("C02:error:"+name, "op", "Commit: %v", err)
+				return
+			}
+			if want := in.rc.get(in.ct).root; !bytes.Equal(root[:], want) {
+				in.fail("C02:root-mismatch:op-commit", "op", "Commit() = %x, reference %x", root[:], want)
+			}
+			in.ndb.Reference(root, common.Hash{})
+			if in.pins == nil {
+				in.pins, in.rootCt = map[common.Hash]int{}, map[common.Hash]content{}
+			}
+			in.pinList = append(in.pinList, root)
+			in.pins[root]++
+			in.rootCt[root] = in.ct
+			in.lastRoot = root
+		case opUnpin:
+			if len(in.pinList) == 0 {
+				return
+			}
+			r := in.pinList[0]
+			in.pinList = in.pinList[1:]
+			in.ndb.Dereference(r)
+			in.pins[r]--
+			// releasing the last pin of the root the live trie was committed at hands its
+			// nodes to the garbage collector: from here on nothing is claimed for the live trie
+			if in.pins[r] == 0 && r == in.lastRoot && !bytes.Equal(r[:], refmpt.EmptyRoot()) {
+				in.unclaimed = true
+			}
 		case opCap:
 			// flush the whole write-back cache of the NodeDatabase to disk and evict it
 			if err := in.ndb.Cap(0); err != nil {
@@ -488,6 +533,10 @@ func (in *inst) observe(last opKind) {
 	if in.dead {
 		return
 	}
+	defer in.observePinned(last)
+	if in.unclaimed {
+		return
+	}
 	after := "after-" + kindName[last]
 	p, pv, site := fw.Try(func() {
 		h := in.tr.Hash()
@@ -512,6 +561,48 @@ func (in *inst) observe(last opKind) {
 	})
 	if p {
 		in.fail("C02:panic:"+site, "observe", "panic in observers %s: %v", after, pv)
+	}
+}
+
+// observePinned: every root that is still pinned at least once must open on the same
+// NodeDatabase and read / iterate / hash exactly like the content it was committed with.
+func (in *inst) observePinned(last opKind) {
+	if len(in.pinList) == 0 {
+		return
+	}
+	after := "after-" + kindName[last]
+	seen := map[common.Hash]bool{}
+	for _, r := range in.pinList {
+		if seen[r] {
+			continue
+		}
+		seen[r] = true
+		root, ct := r, in.rootCt[r]
+		p, pv, site := fw.Try(func() {
+			t2, err := trie.NewTrie(root, in.ndb)
+			if err != nil {
+				in.fail("C02:error:reopen", "pinned-root", "NewTrie(pinned root %x, pins=%d): %v", root[:], in.pins[root], err)
+				return
+			}
+			saveTr, saveCt := in.tr, in.ct
+			in.tr, in.ct = t2, ct
+			defer func() { in.tr, in.ct = saveTr, saveCt }()
+			for k := range in.a.keys {
+				got, err := t2.TryGet(cp(in.a.keys[k]))
+				if err != nil {
+					in.fail("C02:error:get:"+after, "pinned-root", "pinned root %x (pins=%d): TryGet(%s): %v", root[:], in.pins[root], shortKey(in.a.keys[k]), err)
+				} else if !bytes.Equal(got, values[ct[k]]) {
+					in.fail("C02:get-mismatch:"+after, "pinned-root", "pinned root %x: TryGet(%s) = %x, model %x", root[:], shortKey(in.a.keys[k]), got, values[ct[k]])
+				}
+			}
+			in.checkIter("pinned-root")
+			if h := t2.Hash(); h != root || !bytes.Equal(h[:], in.rc.get(ct).root) {
+				in.fail("C02:root-mismatch:"+after, "pinned-root", "trie opened at pinned root %x hashes to %x, reference %x", root[:], h[:], in.rc.get(ct).root)
+			}
+		})
+		if p {
+			in.fail("C02:panic:"+site, "pinned-root", "panic reading pinned root %x %s: %v", root[:], after, pv)
+		}
 	}
 }
 
@@ -576,6 +667,17 @@ func (in *inst) key() [16]byte {
 	b.WriteString("|disk:")
 	b.Write(in.diskCt[:])
 	b.Write(in.diskRoot[:])
+	if len(in.pinList) > 0 || in.unclaimed || in.lastRoot != (common.Hash{}) {
+		b.WriteString("|pins:")
+		for _, r := range in.pinList {
+			b.Write(r[:8])
+		}
+		b.WriteString("|last:")
+		b.Write(in.lastRoot[:8])
+		if in.unclaimed {
+			b.WriteString("|unclaimed")
+		}
+	}
 	sum := sha256.Sum256([]byte(b.String()))
 	var k [16]byte
 	copy(k[:], sum[:16])
@@ -588,6 +690,7 @@ type result struct {
 	mask  uint8
 	viols []viol
 	dump  string
+	final bool // nothing is claimed for the live trie any more: counted, not expanded
 }
 
 // execute replays hist on a fresh instance.  Only the results of the last
@@ -604,7 +707,7 @@ func execute(a *alphabet, rc *refCache, hist []byte, wantDump bool) result {
 		}
 		in.step(last)
 	}
-	r := result{key: in.key(), ct: in.ct, mask: in.mask}
+	r := result{key: in.key(), ct: in.ct, mask: in.mask, final: in.unclaimed}
 	if wantDump && !in.dead {
 		r.dump = in.tr.VerifDump(1)
 	}
@@ -852,6 +955,7 @@ func phases(thorough bool) []phase {
 	if !thorough {
 		a := newAlphabet(keysQuick, allVals)
 		return []phase{
+			pinPhase(d("C02_PIN_DEPTH", 7)),
 			{"empty/4keys", a, nil, d("C02_DEPTH", 5)},
 			// populated tries in different representations, then every history of 4 more operations
 			{"full-1B-dirty/4keys", a, seedHist(a, []int{1}), d("C02_SEED_DEPTH", 4)},
@@ -863,6 +967,7 @@ func phases(thorough bool) []phase {
 	a8 := newAlphabet(keysThorough, allVals)
 	sd := d("C02_SEED_DEPTH", 4)
 	return []phase{
+		pinPhase(d("C02_PIN_DEPTH", 8)),
 		{"empty/8keys", a8, nil, d("C02_DEPTH8", 5)},
 		{"full-1B-dirty/8keys", a8, seedHist(a8, []int{1}), sd},
 		{"full-1B-unloaded/8keys", a8, seedHist(a8, []int{1}, opCommitDisk, opCommitDisk), sd},
@@ -874,6 +979,14 @@ func phases(thorough bool) []phase {
 		// depth 7 on the value alphabet {empty, 1 B, 29 B, 32 B}
 		{"empty/4keys/3values", newAlphabet(keysQuick, []int{0, 1, 2, 4}), nil, d("C02_DEPTH7", 7)},
 	}
+}
+
+// pinPhase: the node database's pin operations in a small universe - commit + pin
+// (Reference(root, {})), release of the oldest pin (Dereference), with writes that can
+// lead two different histories to the same root (re-insert, delete-and-reinsert).
+func pinPhase(depth int) phase {
+	a := newAlphabetKinds([][]byte{{0x12}, {0x12, 0x34}, {0x13}}, []int{1, 5}, opHash, opCommitPin, opUnpin)
+	return phase{"pins/3keys", a, nil, depth}
 }
 
 func envDepth(name string, def int) int {
@@ -922,8 +1035,21 @@ func run(c *fw.Ctx) {
 	rcs := map[*alphabet]*refCache{}
 	var bounds []string
 	capped := false
-	// the cheap targeted families first (seconds), then the BFS phases (the bulk)
-	{
+	// the small pin universe and the cheap targeted families first (seconds), then the
+	// other BFS phases (the bulk)
+	all := phases(c.Thorough())
+	runBFS := func(ph phase) bool {
+		rc := rcs[ph.a]
+		if rc == nil {
+			rc = newRefCache(ph.a.keys)
+			rcs[ph.a] = rc
+		}
+		done := bfs(c, ph, rc, vr, ngo)
+		bounds = append(bounds, fmt.Sprintf("%s: %d ops, seed length %d, depth %d of %d complete", ph.name, len(ph.a.ops), len(ph.seed), done, ph.depth))
+		return done >= ph.depth
+	}
+	capped = !runBFS(all[0])
+	if !capped {
 		n, cfgs, ok := nibbleCoverage(c, vr, ngo, rcs)
 		bounds = append(bounds, fmt.Sprintf("nibble-coverage: %d universes, %d histories, complete=%v", cfgs, n, ok))
 		capped = !ok
@@ -941,15 +1067,8 @@ func run(c *fw.Ctx) {
 		}
 	}
 	if !capped {
-		for _, ph := range phases(c.Thorough()) {
-			rc := rcs[ph.a]
-			if rc == nil {
-				rc = newRefCache(ph.a.keys)
-				rcs[ph.a] = rc
-			}
-			done := bfs(c, ph, rc, vr, ngo)
-			bounds = append(bounds, fmt.Sprintf("%s: %d ops, seed length %d, depth %d of %d complete", ph.name, len(ph.a.ops), len(ph.seed), done, ph.depth))
-			if done < ph.depth {
+		for _, ph := range all[1:] {
+			if !runBFS(ph) {
 				break
 			}
 		}
@@ -1506,7 +1625,7 @@ func bfs(c *fw.Ctx, ph phase, rc *refCache, vr *violRec, ngo int) int {
 						if r.ct.live() >= 2 && mask != 0 {
 							atomic.AddInt64(&nNontriv, 1)
 						}
-						tainted := false
+						tainted := r.final
 						if len(r.viols) > 0 {
 							atomic.AddInt64(&nViolCases, 1)
 							vr.consider(a, rc, hist, r.viols)
@@ -1615,7 +1734,7 @@ func replay(c *fw.Ctx, raw json.RawMessage) {
 			}
 		}
 	}
-	a := newAlphabet(keys, vals)
+	a := newAlphabetKinds(keys, vals, opHash, opCommitMem, opCommitDisk, opReopen, opLimit, opIter, opCap, opCommitPin, opUnpin)
 	var hist []byte
 	for _, co := range k.Ops {
 		found := -1
@@ -1654,7 +1773,7 @@ func main() {
 		ID: "C02", Level: "model_checking",
 		Rule: "explicit-state BFS, per phase over ALL operation histories seed.h with |h| <= depth (seed = empty history or a fixed history that fills the key universe " +
 			"and leaves it dirty / committed-and-unloaded / reopened; see coverage.bounds) on the real trie (fresh instance + replay per transition); " +
-			"ops: update(k,v) for v in {empty,1,29,31,32,40 B; all leading parts of one byte stream}, delete(k), get(k), hash, commit (trie only), commit+NodeDatabase.Commit, reopen, SetCacheLimit(1), NodeDatabase.Cap(0), full iteration; " +
+			"ops: update(k,v) for v in {empty,1,29,31,32,40 B; all leading parts of one byte stream}, delete(k), get(k), hash, commit (trie only), commit+NodeDatabase.Commit, reopen, SetCacheLimit(1), NodeDatabase.Cap(0), full iteration; in the pin universe commit+Reference(root,{}) and Dereference(oldest pinned root) with a pin counter per root in the model (every still-pinned root must reopen and read like its content; nothing is claimed for the live trie after the last pin of its committed root is released); " +
 			"states merged on implementation dump (node graph with kinds/keys/dirty/cached-hash/age, NodeDatabase cache, disk keys) + model; " +
 			"plus overwrite-pair phases: every ordered pair old->new of the relational value alphabet (bases 1/29/31/32/33/40 B, each with strict prefix, strict suffix, last byte changed, " +
 			"first byte changed, trailing 0x00, and empty) on every key (leaf and branch-slot keys) x {others absent, 1 B, 32 B} x {none, hash, commitmem, commitmem x2, commitdisk+reopen, commitdisk x2} between the writes x {none, commitdisk+reopen} after; " +
